@@ -158,6 +158,14 @@ OpSpec parse_op(const std::string& s)
 
 enum class WK { g, go, sg, sgo, og, ag };
 
+// identity tags for the values handed to whole-object operations (vpay::Pay::rev: equal values that are not the same
+// object); `rrv <rev>` reports the tag of the value an operation handed back (marker for the python oracle)
+static int g_rev_counter = 0;
+static long next_rev()
+{
+    return long(verif::self()) * 1000 + (++g_rev_counter);
+}
+
 template <WK K, class W, class M>
 void do_op(W& w, const std::string& text)
 {
@@ -248,13 +256,16 @@ void do_op(W& w, const std::string& text)
             if (o.name == "ld") {
                 Pay r = w.load();
                 result = std::to_string(r.a);
+                verif::emit("rrv " + std::to_string(r.rev));
                 done = true;
             } else if (o.name == "st") {
                 Pay nv(o.v1);
+                nv.rev = next_rev();
                 w.store(nv);
                 done = true;
             } else if (o.name == "as") {
                 Pay nv(o.v1);
+                nv.rev = next_rev();
                 w = nv;
                 done = true;
             }
@@ -264,6 +275,7 @@ void do_op(W& w, const std::string& text)
             if (o.name == "cv") {
                 Pay r = static_cast<Pay>(w);
                 result = std::to_string(r.a);
+                verif::emit("rrv " + std::to_string(r.rev));
                 done = true;
             }
         }
@@ -309,14 +321,20 @@ void do_op(W& w, const std::string& text)
         }
         if constexpr (K == WK::ag) {
             if (o.name == "xc") {
-                Pay r = w.exchange(Pay(o.v1));
+                Pay nv(o.v1);
+                nv.rev = next_rev();
+                Pay r = w.exchange(std::move(nv));
                 result = std::to_string(r.a);
+                verif::emit("rrv " + std::to_string(r.rev));
                 done = true;
             } else if (o.name == "ce") {
                 Pay expected(o.v1);
                 Pay desired(o.v2);
+                expected.rev = next_rev();
+                desired.rev = next_rev();
                 bool ok = w.compare_exchange(expected, desired);
                 result = std::string(ok ? "1 " : "0 ") + std::to_string(expected.a);
+                verif::emit("rrv " + std::to_string(expected.rev));
                 done = true;
             }
         }
@@ -394,6 +412,7 @@ verif::Result exec_m(const std::string& wk, bool enabled, bool defctor, const Sc
 verif::Result exec(const Script& sc, const verif::Config& cfg)
 {
     verif::begin(cfg);
+    g_rev_counter = 0;
     auto parts = split(sc.config, ':');
     std::string wk = parts[0];
     std::string mk = parts.size() > 1 ? parts[1] : "m";
@@ -558,6 +577,13 @@ int main(int argc, char** argv)
                 }
             }
         }
+    }
+    // equal values that are not the same value (vpay::Pay::rev): stores of one value racing with exchanges
+    for (std::string mk : {"m", "stm"}) {
+        Script e;
+        e.config = "ag:" + mk + ":1";
+        e.threads = {{"st=5", "st=5", "st=5"}, {"xc=3", "xc=5", "xc=4"}, {"st=5", "ce=5/5", "st=5"}};
+        directed.push_back(e);
     }
     return client_main(argc, argv, directed, gen, exec);
 }
